@@ -24,7 +24,8 @@ def getFrame (j : Json) : Except String SFrame := do
 def getStored (j : Json) : Except String Stored := do
   let fr ← (← getArr j "frames").toList.mapM getFrame
   pure { type := (← getSegType j), segNums := (← getNatList j "stored"), bitsStored := (← getNat j "bits"),
-         mfv := (← getNat j "mfv"), bg := 0, npix := (← getNat j "npix"), frames := fr }
+         mfv := (← getNat j "mfv"), bg := (← getNat j "bg"), npix := (← getNat j "npix"), frames := fr,
+         refs := (← getNatList j "refs") }
 
 def getReq (j : Json) : Except String Req := do
   pure { keys := (← getNatList j "keys"), segs := (← getNatList j "segs"), combine := (← getBool j "combine"),
@@ -33,8 +34,9 @@ def getReq (j : Json) : Except String Req := do
 
 def getMode (j : Json) : Except String Mode := do
   match (← getStr j "mode") with
-  | "known" => pure (.known (← getNatList j "known"))
-  | "frame" => pure .maxFrame
+  | "instance" => pure .bySource
+  | "frame" => pure (.frame (← getNat j "uid"))
+  | "div" => pure .div
   | "all" => pure .all
   | s => throw s!"bad mode {s}"
 
@@ -56,26 +58,42 @@ def getOptStr (j : Json) (k : String) : Except String (Option String) := do
   | .ok .null => pure none
   | .ok v => some <$> v.getStr?
 
-def getPair (j : Json) (k : String) : Except String (String × String) := do
-  let a ← getArr j k
+/-- a code travels as [value, scheme designator, scheme version | null] -/
+def codeOfJson (v : Json) : Except String PCode := do
+  let a ← v.getArr?
   match a.toList with
-  | [x, y] => pure ((← x.getStr?), (← y.getStr?))
-  | _ => throw s!"pair expected at {k}"
+  | [x, y, z] =>
+    let ver ← (match z with | .null => pure none | w => some <$> w.getStr? : Except String (Option String))
+    pure ⟨some (← x.getStr?), some (← y.getStr?), none, ver⟩
+  | _ => throw "code = [value, scheme, version]"
 
-def getOptPair (j : Json) (k : String) : Except String (Option (String × String)) := do
+def getCode (j : Json) (k : String) : Except String PCode := do codeOfJson (← j.getObjVal? k)
+
+def getOptCode (j : Json) (k : String) : Except String (Option PCode) := do
   match j.getObjVal? k with
   | .error _ => pure none
   | .ok .null => pure none
-  | .ok _ => some <$> getPair j k
+  | .ok v => some <$> codeOfJson v
+
+/-- `snomed_mapping[s].get(v)` restricted to the entries the harness read from pydicom's table for this call -/
+def getMapping (j : Json) : Except String SegMeta.Mapping := do
+  match j.getObjVal? "srt" with
+  | .error _ => pure fun _ _ => none
+  | .ok v =>
+    let pairs ← (← v.getArr?).toList.mapM fun p => do
+      match (← p.getArr?).toList with
+      | [a, b] => pure ((← a.getStr?), (← b.getStr?))
+      | _ => throw "srt pair"
+    pure fun s x => if s == "SRT" then pairs.lookup x else none
 
 def getDesc (j : Json) : Except String Desc := do
-  pure { number := (← getNat j "number"), label := (← getStr j "label"), category := (← getPair j "category"),
-         ptype := (← getPair j "type"), algo := (← getStr j "algo"), trackingId := (← getOptStr j "tracking_id"),
+  pure { number := (← getNat j "number"), label := (← getStr j "label"), category := (← getCode j "category"),
+         ptype := (← getCode j "type"), algo := (← getStr j "algo"), trackingId := (← getOptStr j "tracking_id"),
          trackingUid := (← getOptStr j "tracking_uid") }
 
 def getFilter (j : Json) : Except String Filter := do
-  pure { label := (← getOptStr j "segment_label"), category := (← getOptPair j "segmented_property_category"),
-         ptype := (← getOptPair j "segmented_property_type"), algo := (← getOptStr j "algorithm_type"),
+  pure { label := (← getOptStr j "segment_label"), category := (← getOptCode j "segmented_property_category"),
+         ptype := (← getOptCode j "segmented_property_type"), algo := (← getOptStr j "algorithm_type"),
          trackingUid := (← getOptStr j "tracking_uid"), trackingId := (← getOptStr j "tracking_id") }
 
 def getOptNat (j : Json) (k : String) : Except String (Option Nat) := do
@@ -113,7 +131,7 @@ def handlers : List (String × Handler) := [
   ("segmentNumbers", fun j => do
     let descs ← (← getArr j "descs").toList.mapM getDesc
     let f ← getFilter (j.getObjValD "filters")
-    pure (exceptToJson natsToJson (getSegmentNumbers descs (← getOptNat j "ppv") f))),
+    pure (exceptToJson natsToJson (getSegmentNumbers (← getMapping j) descs (← getOptNat j "ppv") f))),
   ("segmentNumbersAll", fun j => do
     let descs ← (← getArr j "descs").toList.mapM getDesc
     let ppv ← getOptNat j "ppv"
@@ -123,7 +141,7 @@ def handlers : List (String × Handler) := [
     let descs ← (← getArr j "descs").toList.mapM getDesc
     let f ← getFilter (j.getObjValD "filters")
     pure (exceptToJson (fun (l : List (String × String)) =>
-      Json.arr (l.map fun p => Json.arr #[Json.str p.1, Json.str p.2]).toArray) (getTrackingIds descs f)))
+      Json.arr (l.map fun p => Json.arr #[Json.str p.1, Json.str p.2]).toArray) (getTrackingIds (← getMapping j) descs f)))
 ]
 
 def main : IO Unit := run handlers
